@@ -184,6 +184,24 @@ ident("avg_pool2d=mean(unfold windows)", lambda: common(nnops.gen_pool(2, "avg")
     lambda l, a: F.avg_pool2d(l[0], *(gen.realize(a[q]) for q in "kspd")), _pool_as_unfold("avg")))
 
 
+def _pool1d_as_unfold(mode):
+    def f(l, a):
+        x = l[0]
+        k, s_, p, d = a["k"], a["s"], a["p"], a["d"]
+        N, C, W = x.shape
+        unf = F.unfold(x.unsqueeze(2), (1, k), (1, d), (1, s_), (0, p), pad_value=-np.inf if mode == "max" else 0)
+        lw = R.out_len(W, k, s_, p, d)
+        win = unf.reshape((N, C, k, lw))
+        return win.max(2) if mode == "max" else win.mean(2)
+    return f
+
+
+ident("max_pool1d=max(unfold windows)", lambda: common(nnops.gen_pool(1, "max")))((
+    lambda l, a: F.max_pool1d(l[0], a["k"], a["s"], a["p"], a["d"]), _pool1d_as_unfold("max")))
+ident("avg_pool1d=mean(unfold windows)", lambda: common(nnops.gen_pool(1, "avg")))((
+    lambda l, a: F.avg_pool1d(l[0], a["k"], a["s"], a["p"], a["d"]), _pool1d_as_unfold("avg")))
+
+
 @st.composite
 def _bin(draw, div=False):
     a, b = draw(gen.broadcast_shapes(2, 4, 60))
@@ -308,8 +326,12 @@ def seq_cases(draw):
     dims = [draw(st.integers(1, 4)) for _ in range(n + 1)]
     acts = [draw(st.sampled_from(["tanh", "relu", "sigmoid", "none"])) for _ in range(n)]
     b = draw(st.integers(1, 3))
+    repeat = draw(st.booleans())
+    if repeat:                     # the same module objects placed at several positions (square layers)
+        dims = [dims[0]] * (n + 1)
     return {"dims": dims, "acts": acts, "seed": draw(st.integers(0, 2 ** 31 - 1)), "b": b,
-            "x": draw(gen.grid_away_from_zero([b, dims[0]])), "g": draw(gen.upstream())}
+            "x": draw(gen.grid_away_from_zero([b, dims[0]])), "g": draw(gen.upstream()),
+            "order": draw(st.lists(st.integers(0, 7), min_size=2, max_size=6)) if repeat else None}
 
 
 def check_seq(c, rec):
@@ -320,6 +342,9 @@ def check_seq(c, rec):
         layers.append(nn.Linear(c["dims"][i], c["dims"][i + 1]))
         if act != "none":
             layers.append({"tanh": nn.Tanh, "relu": nn.ReLU, "sigmoid": nn.Sigmoid}[act]())
+    if c.get("order"):
+        layers = [layers[i % len(layers)] for i in c["order"]]
+        rec.tag("repeated_instances" if len(set(map(id, layers))) < len(layers) else "distinct_instances")
     seq = nn.Sequential(*layers)
     x = gen.arr(c["x"], [c["b"], c["dims"][0]], np.float32)
     xa, xb = Tensor(x.copy(), requires_grad=True), Tensor(x.copy(), requires_grad=True)
@@ -328,7 +353,8 @@ def check_seq(c, rec):
     for l in layers:
         ob = l(ob)
     if oa.shape != ob.shape or not np.array_equal(oa.data, ob.data):
-        raise Violation("sequential_output", "Sequential(f,g,...)(x) differs from ...g(f(x))")
+        raise Violation("sequential_output", f"Sequential(f,g,...)(x) differs from ...g(f(x)); layers="
+                                             f"{[type(l).__name__ for l in layers]} order={c.get('order')}")
     g = gen.cyc(c["g"], oa.shape, np.float32)
     oa.backward(Tensor(g.copy()))
     ga = [np.array(p.grad.data) for p in seq.parameters()] + [np.array(xa.grad.data)]
